@@ -948,3 +948,42 @@ def cause_of_ops(ops):
         else:
             parts.append(f"{op['op'].replace('_', '-')}:{cls(op['path'])}")
     return "real:" + "+".join(parts)
+
+
+# ------------------------------------------------------------------------------------------
+# event shapes: the synthesised events of the sim leg rest on data/event_shapes.json
+# ------------------------------------------------------------------------------------------
+STABLE_SCENARIOS = [
+    "create_file", "modify_file_truncate_write", "append_file", "chmod_file", "rename_file_same_dir",
+    "rename_file_across_dirs", "rename_file_over_existing", "atomic_save_tmp_then_rename_over",
+    "rename_file_out_of_tree", "rename_file_into_tree", "delete_file", "delete_then_recreate_file", "mkdir",
+    "create_file_in_new_dir_later", "rename_dir", "rename_dir_into_other_dir", "remove_dir_all_with_files",
+    "rename_dir_out_of_tree", "rename_dir_into_tree", "replace_folder_by_file", "create_file_in_artifact_dir",
+    "schema_modify_in_place", "schema_atomic_replace", "schema_modify_after_atomic_replace", "schema_rename_away",
+    "schema_rename_back", "schema_delete", "schema_recreate", "extension_modify_in_place", "extension_atomic_replace",
+    "extension_delete", "extension_recreate",
+]
+
+
+def _flat(batches):
+    out = []
+    for b in batches:
+        if isinstance(b, list):
+            out += [(e["kind"], tuple(e["paths"])) for e in b if not e["kind"].startswith("Access")]
+    return out
+
+
+def recheck_event_shapes(tool, scratch):
+    """Records the shapes again with the real debouncer and compares the timing-independent
+    scenarios with the checked-in file. Returns (n_checked, [mismatching scenario names])."""
+    try:
+        p = subprocess.run([tool, "record-shapes", scratch], stdout=subprocess.PIPE, stderr=subprocess.PIPE, timeout=600)
+    except subprocess.TimeoutExpired:
+        raise Inconclusive("record-shapes: watchdog")
+    if p.returncode != 0:
+        raise Inconclusive("record-shapes failed: " + p.stderr.decode(errors="replace")[-300:])
+    now = json.loads(p.stdout.decode())["scenarios"]
+    with open(os.path.join(runner.VERIF, "data", "event_shapes.json")) as f:
+        ref = json.load(f)["scenarios"]
+    bad = [n for n in STABLE_SCENARIOS if _flat(now.get(n, [])) != _flat(ref.get(n, []))]
+    return len(STABLE_SCENARIOS), bad
